@@ -91,6 +91,15 @@ pub fn gen_stream(rng: &mut Rng, max_events: u64) -> Vec<u8> {
         }
         // multi-line data for pretty JSON now and then
         let sp = if rng.chance(1, 5) { "" } else { " " };
+        // empty data lines: an event whose only data line is empty, or a payload preceded by one
+        // (a JSON text may start with a line break)
+        if !is_done && rng.chance(1, 14) {
+            out.extend_from_slice(format!("data:{}", nl(rng)).as_bytes());
+            if rng.chance(1, 2) {
+                out.extend_from_slice(nl(rng).as_bytes());
+                continue;
+            }
+        }
         if !is_done && rng.chance(1, 8) && data.starts_with('{') && data.contains(",\"") {
             let cut = data.find(",\"").unwrap() + 1;
             out.extend_from_slice(format!("data:{sp}{}{}", &data[..cut], nl(rng)).as_bytes());
@@ -413,7 +422,7 @@ impl Check for C15 {
         out.into_iter().map(|s| serde_json::to_value(s).unwrap()).collect()
     }
     fn rule(&self) -> String {
-        "one run = one seeded SSE byte stream of 1-8 events (LF, CRLF or mixed; comments; id fields; event names incl. mismatching; single- and multi-line data; text deltas with multi-byte unicode; invalid JSON; schema-invalid events; [DONE] at the end, in the middle or absent, with bytes after it; missing final blank line; invalid UTF-8 inside a payload), up to 420 bytes (quick) / 1200 (thorough); evaluations = chunk partitions delivered through the real pipe: EVERY two-chunk split position of the stream (exhaustive per stream — includes inside multi-byte characters, between CR and LF, inside field names), one byte at a time, and 6 seeded multi-split partitions; each must produce frames identical (all fields but ids/timestamps) to the one-chunk delivery, which in turn must equal the SSE model (one provider frame per event incl. the terminal marker and invalid-JSON events with raw payload, derived text deltas, contiguous seq from the start offset, text = concatenation of deltas); distinct = hash of the stream; non-trivial = at least 2 frames".into()
+        "one run = one seeded SSE byte stream of 1-8 events (LF, CRLF or mixed; comments; id fields; event names incl. mismatching; single- and multi-line data incl. empty data lines (alone, or before the payload); text deltas with multi-byte unicode; invalid JSON; schema-invalid events; [DONE] at the end, in the middle or absent, with bytes after it; missing final blank line; invalid UTF-8 inside a payload), up to 420 bytes (quick) / 1200 (thorough); evaluations = chunk partitions delivered through the real pipe: EVERY two-chunk split position of the stream (exhaustive per stream — includes inside multi-byte characters, between CR and LF, inside field names), one byte at a time, and 6 seeded multi-split partitions; each must produce frames identical (all fields but ids/timestamps) to the one-chunk delivery, which in turn must equal the SSE model (one provider frame per event incl. the terminal marker and invalid-JSON events with raw payload, derived text deltas, contiguous seq from the start offset, text = concatenation of deltas); distinct = hash of the stream; non-trivial = at least 2 frames".into()
     }
     fn assumptions(&self) -> Vec<String> {
         vec![
